@@ -14,7 +14,8 @@ From Coq Require Import String.
 From Coq Require Import List NArith ZArith Bool.
 From AV Require Import model.Proto model.Bits model.Lists model.Chain model.Program
   model.Heuristic model.Contfrac model.Decomp model.Opt model.Runs model.Binary model.Dict model.Ensemble
-  proofs.C01Aux proofs.BinaryProofs proofs.DictProofs proofs.PrimitiveProofs proofs.EnsembleProofs.
+  proofs.C01Aux proofs.BinaryProofs proofs.DictProofs proofs.PrimitiveProofs proofs.ContfracProofs
+  proofs.EnsembleProofs.
 Import ListNotations.
 Open Scope Z_scope.
 
@@ -99,8 +100,9 @@ Print Assumptions C01_primitive_never_reconstruct.
 
 (* ---- L4: the dictionary and runs algorithms, given their two ingredients ----
    decomp_ok m  (interface to C09): for x >= 1, decompose m x = Ok s with Sum.Int s = x and every D >= 1
-   seqalg_ok s  (interface to C08): for non-empty positive targets, find_sequence_alg s ts = Ok c with
-                c a valid chain containing every target and no element above the largest target
+   seqalg_ok s  (interface to C08): find_sequence_alg s [1] = Ok [1], and for non-empty positive targets
+                find_sequence_alg s ts = Ok c with c a valid chain containing every target in which every
+                element is <= 2 or <= some target; discharged below for every configuration C08 proves total
    runlength_ones (C09): every D of RunLength{0}.Decompose is 2^l - 1 *)
 Theorem C01_dict_alg_ok : forall m s, decomp_ok m -> seqalg_ok s -> forall n orc, 1 <= n ->
   (exists c, dict_find_chain m s n orc = Ok c /\ is_chain c /\ asc c /\ last c 0 = n) \/
@@ -132,11 +134,35 @@ Theorem C01_any_configuration : forall a, cfg_hyps a -> C01_at a.
 Proof. exact any_configuration. Qed.
 Print Assumptions C01_any_configuration.
 
-(* ---- the ensemble: partial — the gap is exactly the three interface hypotheses ---- *)
+(* ---- the C08 interface holds for every configuration C08 proves total (seqalg_total, computable):
+   every continued-fraction strategy and every heuristic composition containing delta_largest or
+   approximation ---- *)
+Theorem C01_seqalg_interface : forall s, seqalg_total s = true -> seqalg_ok s /\ seqalg_asc s.
+Proof. exact seqalg_total_ok. Qed.
+Print Assumptions C01_seqalg_interface.
+
+(* continued-fraction and heuristic algorithms as chain algorithms, with and without opt: FULL *)
+Theorem C01_sequence_configurations : forall s, seqalg_total s = true ->
+  forall a, a = ASeq s \/ a = AOpt (ASeq s) -> C01_at a.
+Proof. exact sequence_configurations. Qed.
+Print Assumptions C01_sequence_configurations.
+
+(* dictionary algorithms for every decomposer (any K, T) and total sequence algorithm, with and
+   without opt: the only hypothesis left is C09's decomposition theorem for that decomposer *)
+Theorem C01_dictionary_configurations_partial : forall m s, decomp_ok m -> seqalg_total s = true ->
+  forall a, a = ADict m s \/ a = AOpt (ADict m s) -> C01_at a.
+Proof. exact dictionary_configurations. Qed.
+Print Assumptions C01_dictionary_configurations_partial.
+
+Theorem C01_runs_configurations_partial : forall s,
+  decomp_ok (RunLength 0) -> runlength_ones -> seqalg_total s = true ->
+  forall a, a = ARuns s \/ a = AOpt (ARuns s) -> C01_at a.
+Proof. exact runs_configurations. Qed.
+Print Assumptions C01_runs_configurations_partial.
+
+(* ---- the ensemble: partial — the gap is exactly C09's two facts about the decomposers ---- *)
 Theorem C01_ensemble_partial :
-  (forall m, In m ensemble_decomposers -> decomp_ok m) -> runlength_ones ->
-  (forall s, In s ensemble_seqalgs -> seqalg_ok s) ->
-  C01_full.
+  (forall m, In m ensemble_decomposers -> decomp_ok m) -> runlength_ones -> C01_full.
 Proof. exact ensemble_partial. Qed.
 Print Assumptions C01_ensemble_partial.
 
@@ -152,10 +178,10 @@ Print Assumptions C01_ensemble_shape.
 Definition ex_alg : alg_cfg := AOpt (ADict (Hybrid 3 16) (SAHeuristic [Halving; Approximation])).
 Example C01_ex_member : In ex_alg ensemble.
 Proof. vm_compute. tauto. Qed.
-(* a 61-bit target with three long runs: the model returns an error-free result, and L0 applies to it *)
-Example C01_ex_execute : exists r, execute ex_alg 0x1ffffe00fffc07ff None = Ok r /\ good_result 0x1ffffe00fffc07ff r.
+(* a 43-bit target with three long runs: the model returns an error-free result, and L0 applies to it *)
+Example C01_ex_execute : exists r, execute ex_alg 0x7ffe00ffc7f None = Ok r /\ good_result 0x7ffe00ffc7f r.
 Proof.
-  destruct (execute ex_alg 0x1ffffe00fffc07ff None) as [r| | |] eqn:E; [|vm_compute in E; discriminate..].
+  destruct (execute ex_alg 0x7ffe00ffc7f None) as [r| | |] eqn:E; [|vm_compute in E; discriminate..].
   exists r. split; [reflexivity|].
   assert (He : res_err r = None) by (vm_compute in E; injection E as <-; reflexivity).
   split; [exact He|]. exact (C01_execute_sound _ _ _ _ E He).
@@ -173,9 +199,9 @@ Proof.
 Qed.
 (* the interface hypotheses are met on concrete inputs by the ensemble's ingredients *)
 Example C01_ex_interfaces :
-  (exists s, decompose (Hybrid 3 16) 0x1ffffe00fffc07ff%N = Ok s /\ Decomp.sum_int s = 0x1ffffe00fffc07ff%N) /\
-  (exists c, find_sequence_alg (SAHeuristic [Halving; Approximation]) [1; 7; 2047; 16383; 1048575] = Ok c /\
-             is_chain c /\ last c 0 = 1048575).
+  (exists s, decompose (Hybrid 3 16) 0x7ffe00ffc7f%N = Ok s /\ Decomp.sum_int s = 0x7ffe00ffc7f%N) /\
+  (exists c, find_sequence_alg (SAHeuristic [Halving; Approximation]) [1; 7; 127; 1023; 16383] = Ok c /\
+             is_chain c /\ last c 0 = 16383).
 Proof.
   split.
   - eexists. split; [vm_compute; reflexivity|vm_compute; reflexivity].
